@@ -373,7 +373,8 @@ class Gen:
                 old, new = txt
                 base = src.toks[lo_tok].start
                 body = src.text[base:src.toks[hi_tok].end]
-                pat = re.compile(r'\s*'.join(re.escape(t) for t in re.findall(r'\w+|[^\w\s]', old)))
+                # (tokens of OLD, separated by any white space and line comments)
+                pat = re.compile(r'(?:\s|//[^\n]*)*'.join(re.escape(t) for t in re.findall(r'\w+|[^\w\s]', old)))
                 ms = list(pat.finditer(body))
                 if n >= len(ms):
                     raise LostAnchor('replace: %r not found' % old)
